@@ -28,7 +28,7 @@ Local Open Scope R_scope.
 Theorem fenchel_young :
   forall (sqrtf : R -> R), (forall a, 0 <= a -> 0 <= sqrtf a /\ sqrtf a * sqrtf a = a) ->
   forall (e e' : fxR) (n : nat) (w x y : list R) (vx vy : extR),
-  wf n e -> wpos w -> length w = n -> length x = n -> length y = n ->
+  wf n e -> wpos w -> wadm w e -> length w = n -> length x = n -> length y = n ->
   value sqrtf 0 e w x = Ok vx -> cconj w e = Ok e' -> value sqrtf 0 e' w y = Ok vy ->
   fy vx vy (wdot w x y).
 Proof. exact fenchel_young_tree. Qed.
@@ -74,7 +74,7 @@ Proof. exact D_example_proof. Qed.
 Theorem fenchel_young_equality_at_gradient :
   forall (sqrtf : R -> R), (forall a, 0 <= a -> 0 <= sqrtf a /\ sqrtf a * sqrtf a = a) ->
   forall (e e' : fxR) (n : nat) (w x g : list R) (vx vg : extR),
-  wf n e -> wpos w -> length w = n -> length x = n ->
+  wf n e -> wpos w -> wadm w e -> length w = n -> length x = n ->
   grad sqrtf e w x = Ok g -> value sqrtf 0 e w x = Ok vx ->
   cconj w e = Ok e' -> value sqrtf 0 e' w g = Ok vg ->
   eadd vx vg = EFin (wdot w x g).
